@@ -21,3 +21,51 @@ Definition check_fcase (c : fcase) : bool :=
 Inductive kcase2 : Type := K1 (c : kcase) | KF (c : fcase).
 Definition check_kcase2 (c : kcase2) : bool :=
   match c with K1 c => check_kcase c | KF c => check_fcase c end.
+
+(* ---- the real entry point solve(start=, end=): Solver/SolveAll.solve_M (iter_periods included) with the evaluation pass
+   of the parsed program; span labels are the integers 0 .. n-1 (the harness's label 'p<i>' is i), looked up with
+   span.index as fsic does for a list span ---- *)
+Require Import SolveAll EvalSolveAll.
+
+Definition F_solve_P (tb : otable) (span : list Z) :=
+  solve_P float PrimFloat.add PrimFloat.sub PrimFloat.mul PrimFloat.div (olookup tb pow_id) PrimFloat.opp PrimFloat.abs
+          PrimFloat.ltb PrimFloat.leb PrimFloat.eqb fzero (fun f x => olookup tb f x fzero) (olookup tb) fflagged fisfin
+          Z (locate_index span).
+
+Record ecase := mkE {
+  e_tab : otable; e_prog : fprogram; e_desc : mdesc; e_opts : fopts; e_n : nat; e_start : option Z; e_end : option Z;
+  e_state : fstate;
+  ex_state : fstate;
+  ex_out : outcome (list bool * list Z * list Z) }.       (* solved flags, positions, labels — the three returned lists *)
+
+Definition visits_out (r : outcome (sresult Z)) : outcome (list bool * list Z * list Z) :=
+  match r with
+  | Ret res => Ret (map (fun v : visit Z => snd v) (r_visits res),
+                    map (fun v : visit Z => snd (fst v)) (r_visits res),
+                    map (fun v : visit Z => fst (fst v)) (r_visits res))
+  | Raise e => Raise e
+  end.
+Definition out3_eqb (a b : outcome (list bool * list Z * list Z)) : bool :=
+  match a, b with
+  | Ret (x1, x2, x3), Ret (y1, y2, y3) => list_eqb Bool.eqb x1 y1 && list_eqb Z.eqb x2 y2 && list_eqb Z.eqb x3 y3
+  | Raise x, Raise y => exn_eqb x y
+  | _, _ => false
+  end.
+
+Definition check_ecase (c : ecase) : bool :=
+  let span := map Z.of_nat (seq 0 (e_n c)) in
+  let '(s', r) := F_solve_P (e_tab c) span (e_prog c) (e_desc c) (e_opts c) span (e_start c) (e_end c) (e_state c) in
+  state_eqb s' (ex_state c) && out3_eqb (visits_out r) (ex_out c).
+
+(* the hypothesis of the C04 theorems that ties the solver's description to the program — instance-level lags / leads at
+   least the deepest lag / furthest lead of the generated code — is itself checked on every whole-call case *)
+Definition hyp_ok (prog : fprogram) (d : mdesc) : bool :=
+  (prog_lags float prog <=? lags d)%nat && (prog_leads float prog <=? leads d)%nat.
+
+Inductive kcase3 : Type := K2 (c : kcase2) | KE (c : ecase).
+Definition check_kcase3 (c : kcase3) : bool :=
+  match c with
+  | K2 (K1 (KS c)) => check_scase c && hyp_ok (s_prog c) (s_desc c)
+  | K2 c => check_kcase2 c
+  | KE c => check_ecase c && hyp_ok (e_prog c) (e_desc c)
+  end.
